@@ -258,7 +258,8 @@ def one_model(ctx, rng, k):
                 continue
             ctx.monitor("reader_writer_interleavings")
             ctx.cover("interleaving:writer-paused-at:" + offset_class(n, L))
-            ctx.case({"t": text, "f": "rw", "n": n}, True, None)
+            ctx.case({"t": text, "f": "rw", "n": n}, True,
+                     {"fault": "reader runs while the writer is paused inside its cache write", "writer_paused_after_bytes": n, "cache_len": L} if ctx.cases < 1 else None)
             for who in ("reader", "writer"):
                 st, val = res.get(who, ("exc", "no result"))
                 if st != "ok":
